@@ -40,7 +40,10 @@ func (u *Unit) registerPtr(elem types.Type, obj, off *Term) []*Term {
 	if obj.hasBV || off.hasBV {
 		return nil
 	}
-	if _, ok := elem.Underlying().(*types.Struct); !ok {
+	switch elem.Underlying().(type) {
+	case *types.Struct, *types.Slice, *types.Array:
+		// pointers to structs, to slice variables (*[]T) and to arrays
+	default:
 		return nil
 	}
 	if obj.IsConst() {
